@@ -36,8 +36,15 @@ pub struct ExecOut {
     pub oob_write: Option<(usize, usize, usize)>,
 }
 
+thread_local! {
+    /// when set, the computer first runs once on these file contents (written to the same input path); the
+    /// real contents are then put back and the SAME object runs again - that second run is what is reported
+    pub static FIRST_INPUT: std::cell::RefCell<Option<Vec<u8>>> = std::cell::RefCell::new(None);
+}
+
 pub fn exec(in_path: &str, out_path: &str, cfg: &OligoCfg, s: &Sched) -> ExecOut {
     crate::io::plant_stale(std::path::Path::new(out_path));
+    let first_input = FIRST_INPUT.with(|f| f.borrow_mut().take());
     let log: Arc<Mutex<Vec<(usize, usize, usize)>>> = Arc::new(Mutex::new(Vec::new()));
     let oob: Arc<Mutex<Option<(usize, usize, usize)>>> = Arc::new(Mutex::new(None));
     let (l2, o2) = (log.clone(), oob.clone());
@@ -65,10 +72,19 @@ pub fn exec(in_path: &str, out_path: &str, cfg: &OligoCfg, s: &Sched) -> ExecOut
         oc.set_delim(cfg.delim.clone());
         oc.set_max_memory(cfg.memory);
         oc.set_header(cfg.header);
-        match cfg.writer {
+        let run = |oc: &OligoComputer| match cfg.writer {
             Writer::Mmap => oc.verif_vectorise_mmap(),
             Writer::Batch => oc.verif_vectorise_batch(),
+        };
+        if let Some(first) = &first_input {
+            let real = std::fs::read(in_path).unwrap_or_default();
+            std::fs::write(in_path, first).unwrap();
+            let r1 = run(&oc);
+            std::fs::write(in_path, &real).unwrap();
+            r1?;
+            log.lock().unwrap().clear();
         }
+        run(&oc)
     });
     let report = guard.report();
     drop(guard);
